@@ -308,10 +308,48 @@ class _OpContract(Contract):
         yield "denotation", den(r, p) == self.spec(p)
 
 
+def concrete_operand(kind, tag):
+    """an operand of a CONCRETE selection class (abstract children): code that special-cases a class - e.g. a fast path
+    for two dict selections - must meet the same denotation"""
+    S = lambda n: core.Selection(AbsSel.fresh(n + tag))
+    if kind == "abs":
+        inner = AbsSel.fresh("s" + tag)
+    elif kind == "all":
+        inner = core.AllSel()
+    elif kind == "none":
+        inner = core.NoneSel()
+    elif kind == "str":
+        inner = core.StrSel(core.Const("a"))
+    elif kind == "tuple":
+        inner = core.TupleSel(core.Const(("a", "b")))
+    elif kind == "dict":
+        inner = core.DictSel({"a": S("da"), "b": S("db")})
+    elif kind == "dict_overlapping":
+        inner = core.DictSel({"a": S("ea"), "c": S("ec")})
+    elif kind == "empty_dict":
+        inner = core.DictSel({})
+    elif kind == "compl":
+        inner = core.ComplSel(S("c"))
+    elif kind == "in":
+        inner = core.InSel(S("i1"), S("i2"))
+    else:
+        inner = core.OrSel(S("o1"), S("o2"))
+    return core.Selection(inner)
+
+
+OPERAND_KINDS = ["abs", "all", "none", "str", "tuple", "dict", "dict_overlapping", "empty_dict", "compl", "in", "or"]
+_PAIRS = [("abs", k) for k in OPERAND_KINDS] + [(k, "abs") for k in OPERAND_KINDS if k != "abs"] + [(k, k) for k in OPERAND_KINDS if k != "abs"]
+_PAIRS += [("dict", "dict_overlapping"), ("dict_overlapping", "dict"), ("empty_dict", "dict"), ("dict", "empty_dict"), ("str", "tuple"), ("tuple", "dict"), ("dict", "str"), ("all", "dict"), ("none", "tuple"), ("compl", "dict"), ("or", "dict"), ("dict", "in")]
+PAIR_CASES = [a + "|" + b for a, b in _PAIRS]
+
+
 @contract("genjax.core:Selection.__or__", ["C16"])
 class SelOr(_OpContract):
+    cases = PAIR_CASES
+
     def call(self, case):
-        self.a, self.b = core.Selection(AbsSel.fresh("s")), core.Selection(AbsSel.fresh("t"))
+        ka, kb = case.split("|")
+        self.a, self.b = concrete_operand(ka, "L"), concrete_operand(kb, "R")
         return self.real(self.fn, self.a, self.b)
 
     def spec(self, p):
@@ -322,8 +360,11 @@ class SelOr(_OpContract):
 class SelXor(_OpContract):
     """the property: `s ^ t` is the *intersection*."""
 
+    cases = PAIR_CASES
+
     def call(self, case):
-        self.a, self.b = core.Selection(AbsSel.fresh("s")), core.Selection(AbsSel.fresh("t"))
+        ka, kb = case.split("|")
+        self.a, self.b = concrete_operand(ka, "L"), concrete_operand(kb, "R")
         return self.real(self.fn, self.a, self.b)
 
     def spec(self, p):
@@ -332,8 +373,10 @@ class SelXor(_OpContract):
 
 @contract("genjax.core:Selection.__invert__", ["C16"])
 class SelInvert(_OpContract):
+    cases = list(OPERAND_KINDS)
+
     def call(self, case):
-        self.a = core.Selection(AbsSel.fresh("s"))
+        self.a = concrete_operand(case, "L")
         return self.real(self.fn, self.a)
 
     def spec(self, p):
@@ -345,10 +388,21 @@ class SelCtor(Contract):
     """sel(), sel(None) select nothing; sel(()) everything; sel('a') everything under a;
     sel((a,b,..)) exactly that sub-tree; sel({...}) delegates per key."""
 
-    cases = ["no_args", "none", "unit", "str", "tuple1", "tuple2", "tuple3", "dict"]
+    cases = ["no_args", "none", "unit", "str", "tuple1", "tuple2", "tuple3", "dict", "empty_dict", "dict_with_empty_dict_child", "empty_string"]
 
     def call(self, case):
         f = self.fn
+        if case == "empty_dict":
+            # a dict selection delegates per key: with no key it selects NOTHING (never everything)
+            self.spec = lambda p: z3.BoolVal(False)
+            return self.real(f, {})
+        if case == "dict_with_empty_dict_child":
+            inner = self.real(f, {})
+            self.spec = lambda p: z3.BoolVal(False)
+            return self.real(f, {"a": inner})
+        if case == "empty_string":
+            self.spec = lambda p: z3.And(z3.Length(p) > 0, p[0] == atom(""))
+            return self.real(f, "")
         if case == "no_args":
             self.spec = lambda p: z3.BoolVal(False)
             return self.real(f)
